@@ -514,6 +514,7 @@ func checkC20(c *Ctx) {
 	ruleL4(c, pubsubOwners, 18)
 	ruleD5(c, 2)
 	ruleL5(c)
+	ruleD12(c)
 	ruleQueueLinks(c)
 	ruleW9b(c)
 	condRules(c, pubsubOwners, map[string]int{"W1": 5, "W2": 5, "W2b": 5, "W3": 20, "W4": 20, "W6": 20, "W7": 2})
